@@ -271,7 +271,59 @@ def rule_d(ctx, out):
     C09.rule_e(ctx, out, modules=("gasol_asm",))
 
 
+def rule_e(ctx, out):
+    """Every instruction of a block is looked at by the comparison.  compare_asm_block_asm_format compares three projections of a block:
+    the instructions that go into the specification, the leading tag/JUMPDEST items and the block-ending items.  The specification
+    projection drops tag/JUMPDEST and terminators at *any* position, so the other two must pick them up at any position: the three
+    projections partition the instruction list.  Evaluated abstractly on blocks with such items at the start, in the middle and at
+    the end (a replayed log can put `STOP` anywhere)."""
+    from ..core.interp import ModuleInterp
+    from ..core.minieval import Unsupported, Raised
+    cls = ctx.p.cls("sfs_generator.asm_block.AsmBlock")
+    mi = ModuleInterp(ctx, max_steps=100000)
+    env = mi.module_env("global_params.constants")
+    if not isinstance(env.get("beginning_block"), (set, frozenset, list, tuple)) or not isinstance(env.get("end_block"), (set, frozenset, list, tuple)):
+        raise AnalysisError("global_params.constants: beginning_block / end_block not found")
+    Blk = mi.fake_class(cls)
+
+    class Item:
+        def __init__(self, d):
+            self.disasm = d
+
+        def __repr__(self):
+            return self.disasm
+    mi.obj_types = mi.obj_types + (Item,)
+    starts, ends = sorted(env["beginning_block"]), sorted(env["end_block"])
+    shapes = [[starts[0], "ADD", ends[0]], ["ADD", ends[0], "MUL", "SSTORE"], ["ADD", starts[0], "MUL"], [ends[1], "ADD", ends[0]], ["ADD", "MUL"],
+              [starts[0], starts[-1], "ADD", ends[-1], "SUB", ends[0]]] + [["PUSH", e, "POP"] for e in ends] + [["PUSH", b, "POP"] for b in starts]
+    n = 0
+    for names in shapes:
+        items = [Item(d) for d in names]
+        blk = Blk(instructions=items)
+        try:
+            parts = [blk.instructions_initial_bytecode(), blk.instructions_to_optimize_bytecode(), blk.instructions_final_bytecode()]
+        except (Unsupported, Raised) as e:
+            raise AnalysisError(f"AsmBlock projections: cannot evaluate abstractly on {names}: {e}")
+        n += 1
+        got = [id(x) for p_ in parts for x in p_]
+        missing = [x for x in items if id(x) not in got]
+        twice = [x for x in items if got.count(id(x)) > 1]
+        order_ok = all([id(x) for x in p_] == [id(x) for x in items if id(x) in {id(y) for y in p_}] for p_ in parts)
+        if not missing and not twice and order_ok:
+            out.ok({"block": " ".join(names), "initial": repr(parts[0]), "specified": repr(parts[1]), "final": repr(parts[2])})
+        elif missing:
+            where_ = "in the middle" if items.index(missing[0]) not in (0, len(items) - 1) else "at the end" if items.index(missing[0]) else "at the start"
+            out.bad(f"instruction-compared-nowhere:{'terminator' if missing[0].disasm in ends else 'block-start' if missing[0].disasm in starts else 'ordinary'}:{where_.replace(' ', '-')}",
+                    f"in the block `{' '.join(names)}` the instruction {missing[0]} ({where_}) is in none of the three projections that the block comparison "
+                    f"looks at: a rebuilt block may add, drop or move it unnoticed", where(cls.methods["instructions_final_bytecode"]))
+        else:
+            out.bad("instruction-projections-overlap-or-reorder", f"`{' '.join(names)}`: projections {parts} overlap or change the order", where(cls.methods["instructions_to_optimize_bytecode"]))
+    if n < 10:
+        raise AnalysisError(f"only {n} block shapes evaluated")
+
+
 RULES = [
+    ("C11.e", "the block comparison looks at every instruction", 10, rule_e),
     ("C11.d", "per-section block lists of the drivers are fresh", 2, rule_d),
     ("C11.a", "verification dominates emission in log replay", 3, rule_a),
     ("C11.b", "log writer/reader agreement", 10, rule_b),
